@@ -122,19 +122,41 @@ def run(chk):
     nt_multi = chk.cov["distinct_nontrivial"]
     dist = chk.cov.get("input_distribution", {})
     nt, per_op = single_source(chk)
-    chk.cov["distinct_nontrivial"] = nt_multi + len(nt)
-    chk.cov["input_distribution"] = {"multi_source": dist, "single_source_per_operator": per_op}
+    # time-based operators (machines of C15-C17) in a release-oriented mode: half the cases end with a LATE
+    # dispose, after every source event and due timer -- an operator that handed over to a fallback source which
+    # never terminates (timeout(other), timeout_with_mapper(other)) must release THAT one too
+    import timed_table as tt
+    from props import C15, C16, C17
+    timed_names = [n for n in C15.NAMES + C16.NAMES + C17.NAMES if n != "sample_time"]
+
+    def timed_oracle(name, inst, res):
+        return tt.common_timed(res, tt.view(res))
+    tt.run_timed(chk, "C02", timed_names, timed_oracle, ncase=(25 if chk.tier == "quick" else 500),
+                 mode={"p_dispose": 0.2, "p_late": 0.5, "p_none": 0.45})
+    nt_timed = chk.cov["distinct_nontrivial"]
+    timed_dist = chk.cov.get("input_distribution", {})
+    chk.cov["distinct_nontrivial"] = nt_multi + len(nt) + nt_timed
+    chk.cov["input_distribution"] = {"multi_source": dist, "single_source_per_operator": per_op,
+                                     "time_based_release_mode": timed_dist}
     chk.cov["rule"] = ("multi-source: as C10-C13 (seeded interleavings of hot sources incl. non-conforming tails and "
                        "dispose instants); single-source: every operator of the C05/C06 tables on seeded hot inputs, "
                        "run through `lift`; non-trivial = distinct cases in which a source was subscribed and "
-                       "released and the oracle held")
+                       "released and the oracle held; time-based: every operator of the C15-C17 tables with 45% "
+                       "never-terminating sources and 50% LATE dispose (after every event and due timer), 20% dispose at "
+                       "an event instant")
     return chk.finish(trusted_extra=["runner assumption: an operator's disposable holds every subscription/timer it "
                                      "opened (Ops/Multi.v) -- this run compares unsubscribe instants operator by "
                                      "operator", "harness/k2m.py, harness/k2.py drivers"],
                       assumptions=["group/window observables handed to the subscriber (ref-counted release) are "
-                                   "covered in C18/C19, time-based operators in C15-C17"])
+                                   "covered in C18/C19; the timing rules of time-based operators in C15-C17 (their release is "
+                                   "checked here too)"])
 
 
 def replay(chk, path):
+    import json
+    d = json.load(open(path))
+    if "cases" in d:
+        import timed_table as tt
+        return tt.replay_cases("C02", lambda name, inst, res: tt.common_timed(res, tt.view(res)), path)
     print(open(path).read())
     return 1
